@@ -12,7 +12,12 @@ Round 4: HISTORIES (model/PadHist.v, model/PadHistTie.v).  A case may be a whole
 resizes, RenderIterator.set_padding / set_render_size / seek / next and calls with their own padding
 (format / draw / _check_formatting+_format_render / Renderable.render), run in one process; every
 output of the history is judged by the same oracle against the padding and the terminal size that the
-history puts in force at that step (spec_descrs), and compared with the model's fold (run)."""
+history puts in force at that step (spec_descrs), and compared with the model's fold (run).
+
+Round 5: the FILL (model/PadGen.v, model/PadGenTie.v).  The fill is any one-column string: single cases carry the fill
+as a token list (a fill SEGMENT) and are judged by PadGenTie.gcheck (model pad_gen; oracle: every non-render cell shows
+what ONE fill shows in its cell); fills of several code points outside the lexer's vocabulary are substituted, whole
+fill by whole fill, by a placeholder glyph before lexing (prelex) - a fragment left behind is a failure."""
 from __future__ import annotations
 
 import core
@@ -20,14 +25,78 @@ import lexer
 import renderlib as R
 
 LEVEL = "proof"
-EXTRA_TARGETS = ["model/PadTie.vo", "model/PadHistTie.vo"]
+EXTRA_TARGETS = ["model/PadTie.vo", "model/PadHistTie.vo", "model/PadGenTie.vo"]
 HEADER = ("From Coq Require Import List ZArith.\nImport ListNotations.\n"
-          "From TI Require Import lib.Term lib.RectCheck model.Padding model.PadTie.\nOpen Scope Z_scope.\n")
-FILL_T = {"space": "(Some GSpace)", "star": "(Some (GOther 42))", "empty": "None"}
+          "From TI Require Import lib.Term lib.RectCheck model.Padding model.PadTie model.PadGen model.PadGenTie.\n"
+          "Open Scope Z_scope.\n")
 HHEADER = ("From Coq Require Import List ZArith.\nImport ListNotations.\n"
            "From TI Require Import lib.Term lib.RectCheck model.Padding model.PadTie model.PadHist model.PadHistTie.\n"
            "Open Scope Z_scope.\n")
 IMG_K = 100  # frame numbers of images in a history's table of bare renders (impl_c05.IMG_K)
+
+# ------------------------------------------------------------------------------- the fill
+# (round 5) `Padding.fill` "may be any string that occupies exactly one column on a terminal screen, or an
+# empty string".  The universe (the same table is in impl_c05.FILLS):
+#   one code point:       ' '  '*'
+#   empty:                ''
+#   SEVERAL code points, one column:
+#     comb     base letter + combining acute accent
+#     comb2    base letter + two combining marks
+#     zwj      glyph + ZERO WIDTH JOINER
+#     vs       glyph + VARIATION SELECTOR-15 (text presentation)
+#     rev      reverse-video blank (SGR 7 / 27)
+#     bgblank  blank wrapped in a direct-colour background SGR and a reset
+#     fgglyph  glyph wrapped in a direct-colour foreground SGR and a reset
+# bgblank / fgglyph are in the vocabulary of harness/lexer.py: they reach Coq as the token list of the fill
+# string itself (model/PadGen.v: a fill SEGMENT).  The others are not (the lexer refuses combining marks and
+# SGR 7, and would take a joiner for a one-column glyph): before lexing, every occurrence of the EXACT fill
+# string is replaced by a private one-column placeholder character (the fill as ONE cell), and the rest is
+# checked fail-closed: a zero-width code point, a placeholder that was already there, an SGR outside the
+# vocabulary or a cut escape sequence left behind is a FRAGMENT of a fill - itself the violation.
+FILL_STR = {"space": " ", "star": "*", "empty": "",
+            "comb": "e\u0301", "comb2": "o\u0302\u0323", "zwj": "+\u200d", "vs": "#\ufe0e",
+            "rev": "\x1b[7m \x1b[27m",
+            "bgblank": "\x1b[48;2;10;20;30m \x1b[0m", "fgglyph": "\x1b[38;2;200;100;0m+\x1b[0m"}
+PLACEHOLDER = {"comb": "\ue000", "comb2": "\ue001", "zwj": "\ue002", "vs": "\ue003", "rev": "\ue004"}
+MULTI = ("comb", "comb2", "zwj", "vs", "rev", "bgblank", "fgglyph")   # several code points, one column
+GLYPH_FILLS = ("space", "star", "empty") + tuple(PLACEHOLDER)           # representable as ONE glyph token
+# histories (model/PadHist.v: the fill is an optional glyph)
+FILL_T = {"space": "(Some GSpace)", "star": "(Some (GOther 42))", "empty": "None",
+          **{k: f"(Some (GOther {ord(v)}))" for k, v in PLACEHOLDER.items()}}
+
+
+class FillFragment(lexer.LexError):
+    pass
+
+
+def prelex(text, fills=tuple(PLACEHOLDER)):
+    """`text` with every whole occurrence of the placeholder-class fills replaced by their placeholder;
+    raises FillFragment if a piece of a fill that is not a whole fill is left"""
+    import unicodedata
+    for ph in PLACEHOLDER.values():
+        if ph in text:
+            raise FillFragment(f"the output contains the private character {ph!r}")
+    for name in sorted(fills, key=lambda k: -len(FILL_STR[k])):
+        if name in PLACEHOLDER:
+            text = text.replace(FILL_STR[name], PLACEHOLDER[name])
+    for i, ch in enumerate(text):
+        if unicodedata.category(ch) in ("Mn", "Me", "Mc", "Cf"):
+            raise FillFragment(f"a zero-width code point {ch!r} that is not part of a whole fill at index {i}: "
+                               f"{text[max(0, i - 6):i + 6]!r}")
+    return text
+
+
+def lex_out(text, fills=tuple(PLACEHOLDER)):
+    return R.strip_payload(lexer.lex(prelex(text, fills)))
+
+
+def fill_term(name):
+    """the fill as `option (list tok)`: the tokens of the fill string itself where the lexer has them"""
+    if name == "empty":
+        return "None"
+    if name in PLACEHOLDER:
+        return f"(Some [TChar (GOther {ord(PLACEHOLDER[name])})])"
+    return f"(Some {lexer.coq_toks(lexer.lex(FILL_STR[name]))})"
 
 
 def gen_render(rng):
@@ -50,7 +119,7 @@ def gen_case(rng):
     w, h = render["cells"]
     tw, th = rng.randint(max(3, w), 14), rng.randint(max(3, h), 10)
     kind = rng.choice(["aligned", "aligned", "exact", "old"])
-    c = {"render": render, "term_size": [tw, th], "fill": rng.choice(["space", "space", "star", "empty"]),
+    c = {"render": render, "term_size": [tw, th], "fill": rng.choice(("space", "space", "star", "empty", "empty") + MULTI),
          "pres": rng.randrange(6)}
     if kind in ("aligned", "old"):
         def dim(x, t):
@@ -112,6 +181,17 @@ def corpus():
                "padding": {"kind": "old", "W": 0, "H": 0, "ha": 2, "va": 0}})
     cs.append({"render": blk, "term_size": [9, 7], "fill": "space", "via": "renderable",
                "padding": {"kind": "aligned", "W": 4, "H": 2, "ha": 0, "va": 0}})
+    # one-column fills of several code points: margins on both sides / one side only / vertical only,
+    # pad() directly, Renderable.render(padding=), an iterator frame, a graphics render inside
+    for fill in MULTI:
+        cs.append({"render": blk, "term_size": [12, 9], "fill": fill, "padding": {"kind": "exact", "l": 2, "t": 1, "r": 3, "b": 2}})
+        cs.append({"render": blk, "term_size": [12, 9], "fill": fill, "padding": {"kind": "exact", "l": 1, "t": 0, "r": 0, "b": 0}})
+        cs.append({"render": blk, "term_size": [12, 9], "fill": fill, "padding": {"kind": "exact", "l": 0, "t": 2, "r": 0, "b": 1}})
+        cs.append({"render": blk, "term_size": [12, 9], "fill": fill, "via": "renderable",
+                   "padding": {"kind": "aligned", "W": -2, "H": -3, "ha": 2, "va": 2}})
+        cs.append({"render": blk, "term_size": [12, 9], "fill": fill, "via": "iterator", "own_size": [2, 1], "order": 0,
+                   "padding": {"kind": "aligned", "W": 9, "H": 4, "ha": 1, "va": 1}})
+        cs.append({"render": kit, "term_size": [12, 9], "fill": fill, "padding": {"kind": "aligned", "W": 8, "H": 4, "ha": 1, "va": 0}})
     return cs
 
 
@@ -123,22 +203,22 @@ def case_term(c, res):
         k = f"POld {core.z(p['W']).replace('%Z','')} {core.z(p['H']).replace('%Z','')} {p['ha']}%nat {p['va']}%nat"
     else:
         k = f"PExact {p['l']} {p['t']} {p['r']} {p['b']}"
-    inner = R.strip_payload(lexer.lex(res["inner"]))
-    obs = R.strip_payload(lexer.lex(res["out"]))
+    inner = lex_out(res["inner"], ())
+    obs = lex_out(res["out"], (c["fill"],))
     dims = res.get("dims")
     w, h = res["size"]
     tw, th = c["term_size"]
-    return (f"{{| p_kind := {k}; p_fill := {FILL_T[c['fill']]}; p_tw := {tw}; p_th := {th}; p_w := {w}; p_h := {h}; "
-            f"p_inner := {lexer.coq_toks(inner)}; p_obs := {lexer.coq_toks(obs)}; "
-            f"p_obs_dims := {core.coq_list(dims or [])} |}}")
+    return (f"{{| g_kind := {k}; g_fill := {fill_term(c['fill'])}; g_tw := {tw}; g_th := {th}; g_w := {w}; g_h := {h}; "
+            f"g_inner := {lexer.coq_toks(inner)}; g_obs := {lexer.coq_toks(obs)}; "
+            f"g_obs_dims := {core.coq_list(dims or [])} |}}")
 
 
 def describe(c):
-    return f"padding={c['padding']} fill={c['fill']} term={c['term_size']} via={c.get('via', 'pad')} inner=({R.describe(c['render'])})"
+    return f"padding={c['padding']} fill={c['fill']}={FILL_STR[c['fill']]!r} term={c['term_size']} via={c.get('via', 'pad')} inner=({R.describe(c['render'])})"
 
 
 def explain(c, res):
-    text = HEADER + f"Set Printing Width 100000.\nEval vm_compute in (explain ({case_term(c, res)})).\n"
+    text = HEADER + f"Set Printing Width 100000.\nEval vm_compute in (gexplain ({case_term(c, res)})).\n"
     rc, out = core.coq_eval_file(f"c05_explain_{id(c)}", text)
     vals = core.parse_evals(out)
     return vals[0] if vals else out[-300:]
@@ -190,7 +270,8 @@ def step_term(c, st):
 
 
 def hist_term(c, res):
-    toks = lambda text: lexer.coq_toks(R.strip_payload(lexer.lex(text)))
+    fills = hist_fills(c)
+    toks = lambda text: lexer.coq_toks(lex_out(text, fills))
     frames = "[" + "; ".join(f"({k}%nat, {w}, {h}, {toks(t)})" for k, w, h, t in res["frames"]) + "]"
     obs = "[" + "; ".join(toks(o["out"]) for o in res["outs"]) + "]"
     sizes = "[" + "; ".join(f"Some ({o['frame_size'][0]}, {o['frame_size'][1]})" if o.get("frame_size") else "None"
@@ -206,6 +287,12 @@ def hist_term(c, res):
             f"hc_frames := {frames}; hc_obs := {obs}; hc_sizes := {sizes} |}}")
 
 
+def hist_fills(c):
+    """the fills of all the paddings of a history"""
+    pads = [c.get("pad0")] + [st.get("pad") for st in c["steps"]]
+    return tuple(sorted({p.get("fill", "space") for p in pads if p}))
+
+
 def padded_size_of(p, term, size):
     """generator-side only: the padded size of padding p set on terminal `term` around `size`"""
     w, h = size
@@ -216,7 +303,7 @@ def padded_size_of(p, term, size):
     return max(W, w), max(H, h)
 
 
-def gen_padding(rng, size, term, fills=("space", "space", "star", "empty")):
+def gen_padding(rng, size, term, fills=("space", "space", "star", "empty") + tuple(PLACEHOLDER)):
     w, h = size
     fill = rng.choice(fills)
     if rng.random() < 0.3:
@@ -242,7 +329,7 @@ def same_box_variant(rng, p, term, size):
     how = rng.choice(["align", "fill", "exact", "aligned", "relative"])
     fill = p["fill"]
     if how == "fill":
-        fill = rng.choice([f for f in ("space", "star", "empty") if f != p["fill"]])
+        fill = rng.choice([f for f in GLYPH_FILLS if f != p["fill"]])
         return {**p, "fill": fill}
     if how == "exact" or (how == "align" and p["kind"] == "exact"):
         l, t = rng.randint(0, pw - w), rng.randint(0, ph - h)
@@ -252,7 +339,7 @@ def same_box_variant(rng, p, term, size):
         return {"kind": "aligned", "W": pw - term[0], "H": ph - term[1], "ha": rng.randrange(3), "va": rng.randrange(3),
                 "fill": fill}
     return {"kind": "aligned", "W": pw, "H": ph, "ha": rng.randrange(3), "va": rng.randrange(3),
-            "fill": rng.choice([fill, fill, "space", "star", "empty"])}
+            "fill": rng.choice((fill, fill) + GLYPH_FILLS)}
 
 
 def gen_iter_history(rng, quick=True):
@@ -324,7 +411,7 @@ def gen_call_history(rng, quick=True):
         if rng.random() < 0.2:   # the new API's per-call padding on a renderable
             c["steps"].append({"op": "call", "via": "render", "k": rng.randrange(2), "w": rng.randint(1, 4), "h": rng.randint(1, 3),
                                "pad": {"kind": "aligned", "W": min(p["W"], 8), "H": min(p["H"], 6), "ha": p["ha"], "va": p["va"],
-                                       "fill": rng.choice(["space", "star", "empty"])}})
+                                       "fill": rng.choice(GLYPH_FILLS)}})
             continue
         vias = ["fmt"]
         if p["W"] >= 0 and (p["H"] >= 0 or p["H"] == -2):
@@ -347,7 +434,9 @@ def history_corpus():
     # the same box spelt relative to the terminal; caching on / off / by count
     pairs = [(al(6, 4, 0, 0), al(6, 4, 2, 2)), (al(6, 4, 1, 1), al(6, 4, 1, 1, st)), (al(5, 3, 1, 1, st), al(5, 3, 1, 1, em)),
              (al(6, 4, 1, 1), ex(4, 0, 0, 2)), (ex(1, 1, 3, 1, st), ex(3, 0, 1, 2, st)), (al(6, 4, 0, 2), al(-3, -3, 2, 0)),
-             (al(6, 4, 1, 1), ex(1, 1, 1, 1, st))]
+             (al(6, 4, 1, 1), ex(1, 1, 1, 1, st)),
+             # one-column fills of several code points (as placeholders, see prelex)
+             (al(6, 4, 1, 1, "comb"), ex(1, 1, 3, 1, "rev")), (ex(2, 0, 2, 2, "zwj"), al(6, 4, 2, 0, "comb2"))]
     for cache in (True, False, 2):
         for a, b in pairs:
             cs.append({"kind": "history", "flavour": "iterator", "term_size": [9, 7], "size": [2, 2], "frames": 2, "cache": cache,
@@ -468,8 +557,10 @@ def eval_histories(cases, tag="c05h"):
         try:
             terms.append(hist_term(c, r))
             owner.append(i)
-        except lexer.LexError:
+        except lexer.LexError as e:
             codes[i] = -2
+            r["lex_error"] = ("a FRAGMENT of a fill (not a whole fill) is left in an output: " if isinstance(e, FillFragment)
+                              else "unlexable output: ") + str(e)
     if terms:
         bad, errs = core.coq_shards(tag, HHEADER, terms, "hcase", "hbad cases", shard=max(4, min(12, (len(terms) + 15) // 16)))
         errors += errs
@@ -493,7 +584,7 @@ def shrink_history(c, rounds=10):
             return None
         _, codes, _ = eval_histories(cands, tag="c05hs")
         for i, cand in enumerate(cands):
-            if codes.get(i, 0) >= 2:
+            if codes.get(i, 0) >= 2 or codes.get(i, 0) == -2:   # fails the oracle / an output cannot even be lexed
                 return cand
         return None
     outs = [i for i, st in enumerate(c["steps"]) if st["op"] in ("next", "call")]
@@ -530,7 +621,9 @@ def run(ctx):
         himpl, hcodes, herrors = hfut.result() if hfut else ([], {}, [])
     terms, owner = [], []
     failures, mismatches, errors = [], [], list(herrors)
+    hfailures, lexfailures = [], []   # reported after the single cases judged inside Coq (the smallest inputs first)
     hist = {"kind": {}, "fill": {}, "style": {}, "via": {}, "relative": 0, "padded_h": 0, "padded_v": 0,
+            "multi_code_point_fill": {"h_padded": 0, "v_only": 0, "unpadded": 0},
             "histories": {"iterator": 0, "calls": 0, "outputs": 0, "cache_on": 0, "cache_off": 0,
                           "revisits_after_same_box_padding_change": 0, "relative_call_repeated_after_resize": 0,
                           "via": {}}}
@@ -555,20 +648,29 @@ def run(ctx):
         if code == 0:
             continue
         if code == -1:
-            failures.append({"signature": core.sig(["history-raise", c]),
+            hfailures.append({"signature": core.sig(["history-raise", c]),
                              "what": f"a step of the history raised / an output is missing: {r.get('error', len(r.get('outs', [])))} — "
                                      f"{describe_history(c)}", "replay": {"case": c}})
         elif code == -2:
-            failures.append({"signature": core.sig(["history-lex", c]), "what": f"unlexable output — {describe_history(c)}",
-                             "replay": {"case": c}})
+            small = c
+            if shrunk < 2 and not ctx.replay:
+                shrunk += 1
+                small = shrink_history(c) or c
+            res_small = r if small is c else eval_histories([small], tag="c05hx")[0][0]
+            hfailures.append({"signature": core.sig(["history-lex", small]),
+                              "what": f"{res_small.get('lex_error', r.get('lex_error', 'unlexable output'))} — {describe_history(small)}",
+                              "replay": {"case": small, "outputs": [o["out"][:400] for o in res_small.get("outs", [])][:12]}})
         elif code & 2:
             small = c
             if shrunk < 2 and not ctx.replay:
                 shrunk += 1
                 small = shrink_history(c) or c
             res_small = r if small is c else eval_histories([small], tag="c05hx")[0][0]
-            why = hist_explain(small, res_small) if "outs" in res_small else ""
-            failures.append({
+            try:
+                why = hist_explain(small, res_small) if "outs" in res_small else ""
+            except lexer.LexError as e:
+                why = f"the shrunk history's output cannot be lexed: {e}"
+            hfailures.append({
                 "signature": core.sig(["history-oracle", small]),
                 "what": "an output of the history is NOT pad(padding in force, bare frame) for the terminal size in force "
                         f"((well-formed, outputs expected, first output failing the oracle with its (margins, size, frame), "
@@ -610,11 +712,17 @@ def run(ctx):
             terms.append(case_term(c, r))
             owner.append(i)
         except lexer.LexError as e:
-            failures.append({"signature": core.sig(["lex", str(e)[:60]]), "what": f"unlexable padded output: {e} — {describe(c)}",
-                             "replay": {"case": c}})
+            kind = ("a FRAGMENT of the fill (not a whole fill) is left in the padded output" if isinstance(e, FillFragment)
+                    else "unlexable padded output (a cut / foreign control sequence: with a fill of several code points, a piece of the fill)"
+                    if c["fill"] in MULTI else "unlexable padded output")
+            lexfailures.append({"signature": core.sig(["lex", p, c["fill"], c["render"]["cells"], c.get("via", "pad"), str(e)[:60]]),
+                             "what": f"{kind}: {e} — {describe(c)}",
+                             "replay": {"case": c, "output": r.get("out", "")[:1500]}})
             continue
         if r.get("dims"):
             d = r["dims"]
+            if c["fill"] in MULTI:
+                hist["multi_code_point_fill"]["h_padded" if (d[0] or d[2]) else "v_only" if (d[1] or d[3]) else "unpadded"] += 1
             hist["padded_h"] += bool(d[0] or d[2])
             hist["padded_v"] += bool(d[1] or d[3])
             if (d[0] or d[2]) and (d[1] or d[3]) and c["render"]["cells"][1] >= 2:
@@ -622,7 +730,7 @@ def run(ctx):
         elif p["kind"] == "old" and c["render"]["cells"][1] >= 2 and r["out"] != r["inner"]:
             distinct.add(core.sig([p, c["render"]["cells"], c["render"]["style"], c["term_size"]]))
     if terms:
-        bad, errs = core.coq_shards("c05", HEADER, terms, "pcase", "bad cases", shard=100)
+        bad, errs = core.coq_shards("c05", HEADER, terms, "gcase", "gbad cases", shard=100)
         errors += errs
         for idx, code in bad:
             i = owner[idx]
@@ -644,7 +752,12 @@ def run(ctx):
         "rule": "corpus (9 alignments x {aligned absolute, aligned relative with empty fill on a graphics render, old API defaults}, exact, "
                 "the narrow-pad-width old-API shape) + random: inner renders of block/kitty/iterm2 (1..6 x 1..5 cells, every method, "
                 "mix, terminal identity), paddings around the render size (-2..+3 per axis, zero, terminal-relative), 9 alignments, "
-                "fills ' ', '*', '' ; ExactPadding margins 0..3; small terminals so relative dimensions matter; pad() directly and "
+                "fills from the universe of ONE-COLUMN strings (' ', '*', '', and SEVERAL code points: letter+combining accent, "
+                "letter+two combining marks, glyph+ZERO WIDTH JOINER, glyph+VARIATION SELECTOR-15, reverse-video blank (SGR 7/27), "
+                "blank in a direct-colour background SGR + reset, glyph in a direct-colour foreground SGR + reset; the last two reach "
+                "Coq as the token list of the fill string, the others as a placeholder glyph substituted for every WHOLE fill before "
+                "lexing, any fragment left being a failure; corpus: each of them x {margins on both sides, one side, vertical only, "
+                "Renderable.render(padding=relative), an iterator frame, around a kitty render}); ExactPadding margins 0..3; small terminals so relative dimensions matter; pad() directly and "
                 "through Renderable.render; old API through _check_formatting + _format_render with both spellings of the alignments; "
                 "plus 40 ExactPadding validation cases. Non-trivial: padded on both axes with a multi-line inner render (old API: "
                 "padded, multi-line); distinct by (padding, fill, size, style, terminal). "
@@ -661,11 +774,13 @@ def run(ctx):
                    + [describe_history(c) for c in histories[:1] + histories[22:23] + histories[-2:]],
         "histogram": hist,
         "mismatches": mismatches,
-        "failures": failures,
+        "failures": failures + lexfailures + hfailures,
         "errors": errors,
         "assumptions": ["the inner render satisfies the line-structured render contract (LinesRect; proved for all five render shapes in C01's development)",
                         "histories: _render_ is a function of (frame number, render size) and returns a frame of the requested size; "
                         "the loop budget of the iterator is not exhausted; seek() with Seek.START on a definite frame count",
-                        "fill is one one-column glyph or empty", "terminal conventions of lib/Term.v"],
-        "trusted": ["harness/lexer.py"],
+                        "the fill occupies one column: OneCell (model/PadGen.v) - decided by styled_fillb for the fills whose tokens the lexer has; "
+                        "for the combining / joiner / variation-selector / SGR-7 fills it is the terminal's (Unicode, ECMA-48) rule that the "
+                        "whole string shows as one cell, represented by a placeholder glyph", "terminal conventions of lib/Term.v"],
+        "trusted": ["harness/lexer.py", "harness/props/c05.py prelex (whole fill -> placeholder; fail-closed on fragments)"],
     }
